@@ -73,6 +73,12 @@ EFFECT_CALLS = {'warn', 'info', 'debug', 'warning', 'error', 'getLogger',
                 'print'}
 
 
+_BINOP_METHODS = {
+    ast.BitAnd: '__and__', ast.BitOr: '__or__', ast.BitXor: '__xor__',
+    ast.Add: '__add__', ast.Sub: '__sub__', ast.Mult: '__mul__',
+    ast.LShift: '__lshift__', ast.RShift: '__rshift__'}
+
+
 class Machine:
     def __init__(self, env, stubs=None, resolver=None):
         self.env = env            # 'a', 'self.b.c' -> value
@@ -221,6 +227,13 @@ class Machine:
         if isinstance(e, ast.BinOp):
             a, b = self.ev(e.left), self.ev(e.right)
             if isinstance(a, Sym) or isinstance(b, Sym):
+                # an object of a class of the program: its own operator
+                # method (reflected operators are not modelled)
+                name = _BINOP_METHODS.get(type(e.op))
+                meth = self.method_of(a, name) if (
+                    name and isinstance(a, Sym)) else None
+                if meth is not None:
+                    return self.apply_callable(meth, [a, b])
                 raise Unknown(au.src(e))
             try:
                 if isinstance(e.op, ast.Add):
@@ -622,8 +635,13 @@ class Machine:
         """An instance of a class of the program: an object whose
         attributes live in a dictionary; `__init__` is interpreted."""
         node, resolver = cls[1], cls[2]
-        if node.bases and not all(
+        own_init = any(isinstance(st, ast.FunctionDef)
+                       and st.name == '__init__' for st in node.body)
+        if node.bases and not own_init and not all(
                 au.src(b) in ('object',) for b in node.bases):
+            # (with its own `__init__` the object is made by the class
+            # itself; a method it inherits is not found and leaves the
+            # call undecided)
             raise Unknown(f'class {node.name} with base classes')
         obj = Sym(f'{node.name} object', dict())
         obj.cls = cls
@@ -665,7 +683,12 @@ class Machine:
                     isinstance(name, str):
                 return name in obj.attrs
             raise Unknown(au.src(e))
-        if n in self.stubs:
+        if n in self.stubs and not (
+                isinstance(e.func, ast.Name)
+                and getattr(self.stubs, 'methods_only', False)
+                and not self.stubs.explicit(n)):
+            # (a bare name never means a method of the class: `rename(u,
+            # self, d)` inside `BDD.rename` is the module's function)
             args = self.elements(e.args)
             kw = self.keywords(e)
             # (the object the method is called on, for stubs that
